@@ -92,8 +92,10 @@ def genotypes(ctx, unit):
         # failed draws), which enumerated short genomes rarely do
         from geneticengine.representations.stackgggp import Genotype
 
-        for genome, _ in P.stack_guided_genomes(ctx.g):
+        guided = P.stack_guided_genomes(ctx.g)
+        for genome, _ in guided:
             out.append(Genotype(list(genome)))
+        genotypes.guided = len(guided)
     return out
 
 
@@ -139,6 +141,8 @@ def run_unit(unit) -> UnitResult:
             except Exception as e:  # noqa
                 return ("exc", type(e).__name__)
 
+        if rep_kind == "stack":
+            r.count("stack_genomes_from_machine_search", getattr(genotypes, "guided", 0))
         first_pass = [map_once(gt) for gt in gts]
         for gt in gts:
             snap0 = genotype_snapshot(gt)
